@@ -1,22 +1,38 @@
 PROPERTY = dict(
-    claim=False,
-    na_reason='harness built (recursion step of the tree / structure signature tasks in BuildSystem.cpp, harness/C12/h_fanout.cpp) but it does not reach a verdict: the SAT instance exhausts 16 GB after 160 s of symbolic execution of the BuildValue / StringList / std::string decoding code; the hash content, listing validity and exclusion patterns were not attempted. Not claimed rather than claimed on a check that cannot finish.',
     level='other',
-    level_text='Reduced scope. What is decided, by bounded model checking of the real DirectoryTreeSignatureTask / DirectoryTreeStructureSignatureTask in BuildSystem.cpp, is the recursion step: given a listing with one child, the child is requested as a node; if the node is a directory (any file information with the directory bit) the task recurses for the child path with the SAME kind of signature key (structure for a directory-structure input, full tree signature for a directory-tree input); a non-directory child triggers no recursion.  The signature hash itself (which fields of a child enter it), listing validity, exclusion patterns and real directory iteration are NOT decided.',
-    level_note='Trusted: clang-14 -O1 IR of BuildSystem.cpp, ir2c (validated each run), CBMC+SAT. TaskInterface::request and llvm::sys::path::append are stubs (recorder / POSIX join).',
-    bounds='one directory, one child, arbitrary child file information',
-    outside='the hash of inputsAvailable; several children; filters; DirectoryContentsTask; depth > 1 (by induction on this step)',
-    stubs='TaskInterface::request -> recorder; llvm::sys::path::append -> join with one separator',
-    assumptions=[],
-    explanation='A solver verdict on the recursion step of both signature tasks for every child file information; everything else in the property (hash content, listing validity, patterns) is outside this check and stated as such.',
+    level_text='Reduced scope, bounded: the two signature tasks of BuildSystem.cpp (DirectoryTreeSignatureTask, DirectoryTreeStructureSignatureTask) are decided by CBMC over the real code, one callback at a time. '
+               '(G3) the recursion step: each listed child is requested as a node; a directory child is recursed into with the SAME kind of signature key and the same filters; every delivered value is kept for the child it belongs to. '
+               '(G1) what the tree signature covers: with the hash functions replaced by an ideal hash, two tasks for the same directory report equal signatures exactly when the directory value, every child value and every sub-signature agree. '
+               '(G2) what the structure signature covers: equal exactly when the directory mode, every child NAME and MODE and every sub-signature agree - size, timestamps, inode and device of a child do not enter (content-only changes do not trigger).',
+    level_note='Trusted: clang-14 -O1 IR of BuildSystem.cpp, ir2c (validated per query), CBMC 6.11 + MiniSat/CaDiCaL; llvm::hash_* is an ideal hash (transcript); depth > 1 follows by induction on the recursion step together with G1/G2 applied at each level. '
+               'NOT decided: that a real file-system change changes a node value / listing (C13 decides FileInfo, the directory-contents task and its validity are not encoded), exclusion patterns (filters are carried, fnmatch is not encoded), re-execution itself (C01).',
+    bounds='one directory with 1 child (quick) or 1..2 children (thorough, G1/G2); child names 1 byte; values 2 opaque bytes (tree) or full encoded file records with symbolic 64-bit fields (structure, recursion)',
+    outside='DirectoryContentsTask / FilteredDirectoryContentsTask, fnmatch filters, the non-file fallback branch of the structure signature, real hashing (collisions)',
+    stubs='TaskInterface::request / complete -> recorders; llvm::sys::path::append -> POSIX join; llvm::hash_value / hash_combine / hash_combine_range -> ideal hash (position in a per-task transcript)',
+    assumptions=['the hash is collision-free on the inputs compared (ideal-hash reading)'],
+    explanation='A solver verdict, for every file record and byte value, on what the signature tasks ask the engine for and on exactly which inputs their signature depends.',
 )
 COMMON = dict(harness='C12/h_fanout.cpp', entry='harness_fanout', cxxflags=['-I/repo/lib/BuildSystem'], models=['engine'],
-              tus=['lib/BuildSystem/BuildValue.cpp', 'lib/BuildSystem/BuildKey.cpp'],
+              tus=['lib/BuildSystem/BuildValue.cpp', 'lib/BuildSystem/BuildKey.cpp', 'lib/Basic/FileInfo.cpp', 'lib/Basic/PlatformUtility.cpp'],
               stubs=['TaskInterface7requestERKNS0_7KeyTypeEm$=stub_request', '^_ZN4llvm3sys4path6appendERNS_15SmallVectorImplIcEERKNS_5TwineES7_S7_S7_$=stub_path_append'],
               noinline=['SignatureTask12provideValue'], expect_functions=['SignatureTask12provideValue'],
               stub_virtual=['SignatureTask(5start|15inputsAvailable|17providePriorValue)', '^_ZN7llbuild4core4Task'], allow_external=['^_ZTV'],
-              assert_external=['.'], unwind=34, unwind_loops=[('harness_fanout', 84)], copy_unwind=100, timeout=600, cbmc_flags=['--object-bits', '10'])
+              assert_external=['.'], unwind=34, unwind_loops=[('harness_fanout', 104)], copy_unwind=100, timeout=600, cbmc_flags=['--object-bits', '10'])
+SIG = dict(opt_flags=['-disable-loop-idiom-all'],   # keep the recorders' byte loops as loops: CBMC's memcpy with a computed length into an array of structs loses the data
+           harness='C12/h_sig.cpp', entry='harness_sig', cxxflags=['-I/repo/lib/BuildSystem'], models=['engine'],
+           tus=['lib/BuildSystem/BuildValue.cpp', 'lib/BuildSystem/BuildKey.cpp', 'lib/Basic/FileInfo.cpp', 'lib/Basic/PlatformUtility.cpp'],
+           stubs=['TaskInterface8completeEOSt6vectorIhSaIhEEb$=stub_complete',
+                  '^_ZN4llvm10hash_valueIcEENS_9hash_codeERKNSt7__cxx1112basic_stringIT_St11char_traitsIS4_ESaIS4_EEE$=stub_hash_string',
+                  '^_ZN4llvm18hash_combine_rangeIN9__gnu_cxx17__normal_iteratorIPKhSt6vectorIhSaIhEEEEEENS_9hash_codeET_SA_$=stub_hash_range',
+                  '^_ZN4llvm18hash_combine_rangeIN9__gnu_cxx17__normal_iteratorIPhSt6vectorIhSaIhEEEEEENS_9hash_codeET_S9_$=stub_hash_range2',
+                  '^_ZN4llvm12hash_combineIJNS_9hash_codeES1_EEES1_DpRKT_$=stub_hash_cc', '^_ZN4llvm12hash_combineIJNS_9hash_codeEmEEES1_DpRKT_$=stub_hash_cu',
+                  '^_ZN4llvm12hash_combineIJNS_9hash_codeENSt7__cxx1112basic_stringIcSt11char_traitsIcESaIcEEEEEES1_DpRKT_$=stub_hash_cs'],
+           noinline=['SignatureTask15inputsAvailable'], expect_functions=['SignatureTask15inputsAvailable'],
+           stub_virtual=['SignatureTask(5start|12provideValue|17providePriorValue)', '^_ZN7llbuild4core4Task'], allow_external=['^_ZTV'],
+           assert_external=['.'], unwind=34, unwind_loops=[('harness_sig|encInfo|stub_complete', 84)], copy_unwind=100, timeout=600, cbmc_flags=['--object-bits', '10'])
 OBLIGATIONS = [
-    dict(COMMON, name='G3.tree-recursion', params_quick=[{'VF_STRUCT': 0}]),
-    dict(COMMON, name='G3.structure-recursion', params_quick=[{'VF_STRUCT': 1}]),
+    dict(SIG, name='G1.tree-signature', params_quick=[{'VF_STRUCT': 0, 'VF_NC': 1}], params_thorough=[{'VF_STRUCT': 0, 'VF_NC': n} for n in (1, 2)]),
+    dict(SIG, name='G2.structure-signature', params_quick=[{'VF_STRUCT': 1, 'VF_NC': 1}], params_thorough=[{'VF_STRUCT': 1, 'VF_NC': n} for n in (1, 2)]),
+    dict(COMMON, name='G3.tree-recursion', params_quick=[{'VF_STRUCT': 0}], timeout=900),
+    dict(COMMON, name='G3.structure-recursion', params_quick=[{'VF_STRUCT': 1}], timeout=900),
 ]
